@@ -33,12 +33,7 @@ func c04SessSquash(text string) string {
 }
 
 func verifC04Session(steps int) {
-	w, _ := c01RunSession(steps)
-	if zzverif.Choice("settle", 2) == 1 {
-		for i := 0; i < 2; i++ {
-			w.reanalyse(i)
-		}
-	}
+	w, _, _ := c01RunSession(steps)
 	from := 0
 	if w.open[1] && zzverif.Choice("from", 2) == 1 {
 		from = 1
